@@ -323,7 +323,7 @@ static void load(const char* path) {
   g_srclen = (size_t)n;
 }
 
-typedef void (*pure_fn)(const void* o, unsigned long* calls, unsigned long* diffs);
+static unsigned long n_ok, n_susp, n_note, n_err;
 `)
 	for si, st := range structs {
 		T := "wuffs_" + st.Pkg + "__" + st.Name
@@ -427,6 +427,7 @@ typedef void (*pure_fn)(const void* o, unsigned long* calls, unsigned long* diff
 			w("      (void)phase; (void)have_pb; (void)work;\n")
 		}
 		w("      pures_%d(o);\n", si)
+		w("      if (!st.repr) n_ok++; else if (wuffs_base__status__is_suspension(&st)) n_susp++; else if (wuffs_base__status__is_note(&st)) n_note++; else n_err++;\n")
 		w("      if (st.repr && !wuffs_base__status__is_suspension(&st)) { if (!rndn(2)) break; }\n")
 		w("    }\n    free(o);\n  }\n")
 		for i, f := range st.Pures {
@@ -449,6 +450,7 @@ int main(int argc, char** argv) {
 	for si := range structs {
 		w("  test_%d(argv[%d]);\n", si, si+2)
 	}
+	w("  printf(\"S ok=%%lu susp=%%lu note=%%lu err=%%lu\\n\", n_ok, n_susp, n_note, n_err);\n")
 	w("  printf(\"DONE\\n\");\n  return 0;\n}\n")
 	return b.String()
 }
